@@ -134,8 +134,15 @@ PROPS["C03"] = {
     "design_ref": "5 (C03)", "trusted_base": LSM_TB,
     "assumptions": ["the smallest-snapshot value a compaction uses is at most every live snapshot (checked on every recorded compaction: smallest_snapshot is part of the event and of validCompaction)", "version pinning (files of a pinned version are not deleted) is checked by the C11 directory checks"],
 }
-_db("C11", "Exactly the needed files are on disk", ["c11:"],
-    "Lean 4 proof + directory listing vs state dump", "under construction", [], [])
+PROPS["C11"] = {
+    "level": "proof", "title": "Exactly the needed files are on disk: nothing live deleted, nothing dead kept",
+    "lean_modules": ["Rain.Props.C11"], "components": ["lsm"], "sig_prefixes": ["c11:", "c09:"],
+    "technique": "Lean 4 proofs over the retention model (a deletion pass keeps every file of every linked version, of running outputs and every WAL/manifest recovery needs; every released reference unlinks its version; in a quiescent reader-free state a pass leaves exactly the current version's tables; kernel-checked witness of the repaired leak) + directory listing vs state dump and vs the model's deletion pass after every quiescence/reopen, with readers and iterators held across compactions",
+    "level_text": "Machine-checked proofs over the model of the version list with reference counts, tables_in_use and remove_obsolete_files for every sequence of acquisitions, releases, installations, outputs and deletion passes. Tied to the code on every run: after every quiescent point and reopen of generated histories (snapshots and iterators held across flushes, compactions and deletion passes) the directory is compared with the dumped state (versions, reference counts, tables in use, WAL / manifest numbers); with no reader alive a deletion pass is forced and the directory must equal the model's clean() of the dumped state; live tables must never be missing. Crash leftovers (orphan tables, stale manifests, temp files) are covered by the C02 crash enumerator's post-recovery checks.",
+    "design_ref": "5 (C11)", "trusted_base": LSM_TB,
+    "assumptions": ["the reference count the model calls `refs` is Arc::strong_count minus the version set's own references (list link, current_version field), as dumped by the hook",
+                    "deletion passes run only at the end of a flush/compaction (known finding: files whose last reference was a reader's linger until the next pass)"],
+}
 
 _db("C02", "Acknowledged writes survive a crash at any point; batches are all-or-nothing", ["c02:", "c09:"],
     "Lean 4 proof over the durability model + exhaustive crash-prefix enumeration on SimFs", "under construction", [], [], comps=("c02",))
@@ -144,8 +151,14 @@ _db("C16", "A torn final write costs at most the unacknowledged tail", ["c16:", 
 _db("C08", "I/O failures are reported, never swallowed; nothing acknowledged is lost", ["c08:", "c09:"],
     "Lean 4 proof over the fault model + single-fault enumeration on SimFs", "under construction", [], [], comps=("c08",))
 
-_db("C15", "Corrupted files are detected, never served as data", ["c15:"],
-    "Lean 4 proof for the CRC-protected spans + exhaustive single-byte corruption of small images", "under construction", [], [], comps=("c15",))
+PROPS["C15"] = {
+    "level": "proof", "title": "Corrupted files are detected, never served as data",
+    "lean_modules": ["Rain.Props.C15"], "components": ["c15"], "sig_prefixes": ["c15:"],
+    "technique": "Lean 4 theorems for the checksum-protected spans (every single-byte change of a table block or of a log fragment's payload/checksum is rejected, under the explicit hypothesis that the checksum detects one-byte changes; kernel-checked witnesses that fragment length and type bytes are unprotected) + exhaustive single-byte corruption (flip, zero, random) and truncation of every persistent file of small database images on the real code",
+    "level_text": "Proof for the CRC-protected spans only (under the named hypothesis DetectsOneByte, never an axiom); the format has no integrity evidence for log-fragment length/type bytes, footer handles and CURRENT, so those are decided by exhaustive per-offset exploration of generated images (a test, labelled as such): every offset of every table, WAL, manifest and CURRENT file (an even sample for larger files) x {bit flip, zero, random byte} plus table truncations; each mutated image is opened, scanned and probed with gets; allowed outcomes are an error, the exact expected contents, or (WAL only) the replay with one contiguous run of damaged batches skipped; panics, hangs and aborts are failures.",
+    "design_ref": "5 (C15)", "trusted_base": DB_TB + ["CRC-32C detects every single-byte change (validated on every mutation of the exploration, not proved)"],
+    "assumptions": ["single-byte corruptions and truncations only", "three format-level / iterator-API findings are recorded as known findings and reported by KNOWN-FINDING lines"],
+}
 
 _db("C05", "Concurrent operations are linearizable", ["c05:", "c09:"],
     "Lean 4 protocol proof + directed schedules through scheduling hooks + stress with per-key register check", "under construction", [], [], comps=("c05",))
@@ -171,4 +184,4 @@ PROPS["C17"] = {
 }
 
 # properties whose check is registered in MANIFEST.json
-CLAIMED = ["C01", "C03", "C04", "C06", "C07", "C10", "C12", "C13", "C14", "C17"]
+CLAIMED = ["C01", "C03", "C04", "C06", "C07", "C10", "C11", "C12", "C13", "C14", "C15", "C17"]
